@@ -354,6 +354,19 @@ def run_check(tier, seed):
     pr.prove_cegar('every representable rate (and the default) reaches thread_manager::run on some path (refusals for other reasons, e.g. PHC options, are separate paths)',
                    z3.Or(z3.Not(some), rate * 1000 < U32), reach, confirm, lambda m: [], need_reach=False)
     ck.absorb(pr)
+    # the record's max_drift_ppb reaches the segment on every write(), also on a segment a previous daemon left behind
+    try:
+        from .seqlock_model import Programs
+        from .client_now import load_shm_program
+        from . import record_store
+        sprog, _w = load_shm_program()
+        Pn = Programs(sprog, writer_new_only=True)
+        prs = Prover(seed)
+        record_store.check(ck, prs, sprog, Pn, only=['max_drift_ppb'])
+        ck.absorb(prs)
+        ck.cov['functions_encoded'].append('ShmWriter::write over a typed record: max_drift_ppb of the argument is stored into the segment (any start generation, any prior content)')
+    except EngineError as e:
+        ck.inconclusive.append('record store of write(): %s' % e)
     ck.cov['paths_to_run'] = len(hits); ck.cov['other_path_ends'] = len(ends)
     ck.cov['counterexamples_confirmed'] = confirmed[0]
     ck.cov['bounds'] = {'option': 'None or any of the 2^32 u32 values', 'profile': 'release (plain Mul wraps, as in the installed binary)',
